@@ -11,6 +11,9 @@ package c10
 import (
 	"fmt"
 	"net"
+	"os"
+	"runtime"
+	"runtime/debug"
 	"strconv"
 	"strings"
 	"time"
@@ -26,12 +29,16 @@ func init() { core.Register(P{}) }
 
 func (P) ID() string { return "C10" }
 func (P) Rule() string {
-	return "case = one real relay session (raw h2 client over net.Pipe <-> h2.Config.Proxy <-> raw h2 TLS server) brought into a state " +
-		"(idle | mid-stream on 1-4 streams | DATA queued behind a zero stream window in either direction, optionally partly released | " +
-		"s2c output channel full behind a client that stopped reading, optionally combined with queued DATA) followed by one terminating " +
-		"event (client EOF, server EOF, write failure toward the client noticed by the s2c reader / the s2c writer / the c2s reader, server " +
-		"reset + write toward it, malformed frame or bad HPACK from either side, proxy closing) and optional trailing traffic; distinct by " +
-		"hash of the op list; non-trivial when the case has a terminating event and the finish line was produced after Proxy was given the bound"
+	return "case = one real Config.Proxy call (raw h2 client over net.Pipe <-> h2.Config.Proxy <-> raw h2 TLS server, or a server that refuses / " +
+		"fails the TLS handshake) that either ends before the relays exist (dial refused, TLS failing, client preface eof / short / wrong / " +
+		"dribbled, server gone before the preface write, closing before the preface, any event around the first SETTINGS) or is brought into a " +
+		"state (idle | mid-stream on 1-4 streams | DATA queued behind a closed stream window - announced zero or exhausted 65535 - in either " +
+		"direction, 1-30 or 61-300 frames, optionally partly released | s2c output channel full behind a client that stopped reading, optionally " +
+		"with queued DATA | destMu of the s2c relay held inside a blocked write by the s2c reader (PING / SETTINGS / ack / GOAWAY), the c2s " +
+		"reader (window acknowledgement) or the s2c writer, with the other users waiting for it) followed by one terminating event (client EOF, " +
+		"server EOF, write failure toward the client noticed by the s2c reader / the s2c writer / the c2s reader, also of the blocked write, " +
+		"server reset + write toward it, malformed frame or bad HPACK from either side, proxy closing) and optional trailing traffic; distinct " +
+		"by hash of the op list; non-trivial when the case has a terminating event and the finish line was produced after Proxy was given the bound"
 }
 
 func (P) Nontrivial(ops []string, impl []string) bool {
@@ -48,15 +55,22 @@ func isTerminating(f []string) bool {
 	if len(f) >= 2 && f[0] == "rep" {
 		f = f[2:]
 	}
+	if len(f) >= 2 && f[0] == "begin" && f[1] != "ok" {
+		return true // the dial fails
+	}
 	if len(f) >= 2 && f[0] == "env" && (f[1] == "closing" || f[1] == "failwrites") {
 		return true
+	}
+	if len(f) >= 3 && f[0] == "env" && f[1] == "preface" {
+		switch f[2] {
+		case "eof", "short", "wrong":
+			return true
+		}
 	}
 	if len(f) >= 4 && f[0] == "env" && f[1] == "deliver" {
 		switch f[3] {
 		case "eof", "err", "bad":
 			return true
-		case "direct":
-			return len(f) >= 5 && f[4] == "0"
 		}
 	}
 	return false
@@ -98,14 +112,20 @@ type runner struct {
 type ex struct {
 	r    *runner
 	hist []string
+	gc   int
 }
 
-func (P) NewExec() core.Exec { return &ex{r: &runner{}} }
+// While a case runs the garbage collector is off: an upstream connection that Proxy forgot to close
+// would otherwise be closed by its finalizer at the next collection (often within milliseconds) and
+// the leak would look like a close. (GOMEMLIMIT, set by ./check, still bounds the heap.)
+func (P) NewExec() core.Exec { return &ex{r: &runner{}, gc: debug.SetGCPercent(-1)} }
 
 func (e *ex) Close() {
 	if e.r.s != nil {
 		e.r.s.teardown()
 	}
+	debug.SetGCPercent(e.gc)
+	runtime.GC()
 }
 
 func splitRep(op string) (int, []string) {
@@ -133,6 +153,7 @@ func (e *ex) Do(op string) core.Result {
 		if e.r.s == nil {
 			return core.Result{Impl: "bad-op"}
 		}
+		e.r.s.stable()
 		return core.Result{Impl: e.r.s.obs()}
 	}
 	e.hist = append(e.hist, op)
@@ -154,11 +175,27 @@ func u32(s string) uint32 {
 // apply performs one op on the real session. Environment ops always answer "ok": whether the relay
 // takes the bytes is what the later observations are about.
 func (r *runner) apply(f []string) string {
-	if f[0] == "start" {
+	if f[0] == "start" || f[0] == "begin" {
 		if r.s != nil {
 			return "bad-op"
 		}
-		s, err := startSession()
+		var s *session
+		var err error
+		if f[0] == "start" {
+			s, err = startSession()
+		} else {
+			if len(f) < 2 || (f[1] != "ok" && f[1] != "refuse" && f[1] != "tlsfail") {
+				return "bad-op"
+			}
+			variant := ""
+			if len(f) >= 3 {
+				variant = f[2]
+			}
+			s, err = begin(f[1], variant)
+			if s != nil && f[1] != "ok" {
+				s.markTerm("dial-fails:" + strings.Join(f[1:], "-"))
+			}
+		}
 		r.s = s
 		if err != nil {
 			r.fail = err.Error()
@@ -195,14 +232,54 @@ func (r *runner) apply(f []string) string {
 		})
 		if !ok {
 			core.Count("settle_timeout")
+			if os.Getenv("C10_DEBUG") != "" {
+				c, _, _ := s.cstat.get()
+				sv, _, _ := s.sstat.get()
+				fmt.Fprintf(os.Stderr, "settle timeout: want %d %d have %d %d\n", wc, ws, c, sv)
+			}
 		}
 		time.Sleep(2 * time.Millisecond) // let the readers get back into their select
+		return "ok"
+	case "settings":
+		if !s.running {
+			return "bad-op"
+		}
+		if err := s.settings(); err != nil {
+			r.fail = err.Error()
+			core.Count("start_failed")
+		}
 		return "ok"
 	case "env":
 		if len(f) < 2 {
 			return "bad-op"
 		}
 		switch f[1] {
+		case "preface":
+			if len(f) < 3 || s.prefaced {
+				return "bad-op"
+			}
+			k := 0
+			if len(f) >= 4 {
+				k, _ = strconv.Atoi(f[3])
+			}
+			switch f[2] {
+			case "good", "split":
+			case "eof", "short", "wrong":
+				if s.mode == "ok" && !s.isReturned() {
+					defer s.markTerm("preface:" + strings.Join(f[2:], "-"))
+				}
+			default:
+				return "bad-op"
+			}
+			if err := s.preface(f[2], k); err != nil {
+				if f[2] == "good" || f[2] == "split" {
+					if !s.sReset && !s.termed {
+						r.fail = err.Error()
+						core.Count("start_failed")
+					}
+				}
+			}
+			return "ok"
 		case "closing":
 			s.closeOnce.Do(func() { close(s.closing) })
 			s.markTerm("closing")
@@ -224,7 +301,11 @@ func (r *runner) apply(f []string) string {
 			return "bad-op"
 		case "failwrites":
 			if len(f) == 3 && f[2] == "s2c" {
-				s.proxyEnd.failWrites.Store(true)
+				blocked := s.proxyEnd.inWrite.Load() > 0
+				s.proxyEnd.fail()
+				if blocked && !s.termed { // a write toward the client was blocked: it fails now
+					s.markTerm("blocked-write-toward-client-fails")
+				}
 				return "ok"
 			}
 			if len(f) == 3 && f[2] == "c2s" { // realised by `reset`
@@ -262,10 +343,19 @@ func (r *runner) deliver(f []string) string {
 		return "bad-op"
 	}
 	work, c := f[1:i], f[i+1:]
+	if !s.running && !(dir == "s2c" && (work[0] == "err" || work[0] == "eof") && (c[0] == "reset" || c[0] == "close")) {
+		return "bad-op" // before the relays exist only the server can act (it goes away)
+	}
 	if isTerminating(append([]string{"env", "deliver", dir}, work...)) {
-		defer s.markTerm(dir + ":" + strings.Join(c, "-"))
-	} else if dir == "s2c" && s.proxyEnd.failWrites.Load() && len(work) >= 1 && (work[0] == "own" || work[0] == "direct") {
-		defer s.markTerm("write-toward-client-fails:" + strings.Join(c, "-")) // the relay's next write toward the client fails
+		if s.running || !s.termed {
+			defer s.markTerm(dir + ":" + strings.Join(c, "-"))
+		}
+	} else if s.proxyEnd.failWrites.Load() && len(work) >= 1 &&
+		((dir == "s2c" && (work[0] == "own" || work[0] == "direct" || work[0] == "settings" || (work[0] == "data" && work[1] != "0"))) ||
+			(dir == "c2s" && work[0] == "data")) {
+		// the relay's next write toward the client fails: a forwarded frame (s2c) or the window
+		// acknowledgement of a client DATA frame (c2s)
+		defer s.markTerm("write-toward-client-fails:" + dir + ":" + strings.Join(c, "-"))
 	}
 	var err error
 	switch c[0] {
@@ -288,6 +378,16 @@ func (r *runner) deliver(f []string) string {
 		err = s.write(dir, func(fr *http2.Framer) error { return fr.WriteData(u32(c[1]), false, make([]byte, n)) })
 	case "ping":
 		err = s.write(dir, func(fr *http2.Framer) error { return fr.WritePing(false, [8]byte{1, 2, 3}) })
+	case "pong":
+		err = s.write(dir, func(fr *http2.Framer) error { return fr.WritePing(true, [8]byte{1, 2, 3}) })
+	case "settings":
+		err = s.write(dir, func(fr *http2.Framer) error {
+			return fr.WriteSettings(http2.Setting{ID: http2.SettingMaxConcurrentStreams, Val: 100})
+		})
+	case "settings-ack":
+		err = s.write(dir, func(fr *http2.Framer) error { return fr.WriteSettingsAck() })
+	case "goaway":
+		err = s.write(dir, func(fr *http2.Framer) error { return fr.WriteGoAway(0, http2.ErrCodeNo, []byte("bye")) })
 	case "wupdate":
 		if len(c) != 3 {
 			return "bad-op"
@@ -324,7 +424,7 @@ func (r *runner) deliver(f []string) string {
 				}
 			}
 			s.cClosed = true
-			s.cliConn.Close()
+			s.cq.closeAfterPending()
 		} else {
 			s.sClosedW = true
 			if s.srvConn != nil {
@@ -336,11 +436,12 @@ func (r *runner) deliver(f []string) string {
 			return "bad-op"
 		}
 		s.sReset = true
-		if s.srvConn != nil {
-			if tc, ok := s.srvConn.NetConn().(*net.TCPConn); ok {
+		if sc := s.server(); sc != nil {
+			if tc, ok := sc.NetConn().(*net.TCPConn); ok {
 				tc.SetLinger(0)
 			}
-			s.srvConn.NetConn().Close()
+			sc.NetConn().Close()
+			time.Sleep(2 * time.Millisecond) // let the RST arrive
 		}
 	default:
 		return "bad-op"
@@ -357,10 +458,10 @@ func (s *session) obs() string {
 	if s.isReturned() {
 		ret = 1
 	}
-	_, _, ended := s.sstat.get()
 	sc := "open"
-	if ended || (s.sReset && ret == 1) {
-		// after a reset by the server itself the proxy's close cannot be observed any more
+	if s.mode != "ok" {
+		sc = "none" // tls.Dial never returned a connection
+	} else if s.upstreamClosed() {
 		sc = "closed"
 	}
 	return fmt.Sprintf("returned=%d sc=%s left=%s", ret, sc, kindsOf(s.mine()))
@@ -413,7 +514,7 @@ wait:
 		}
 	}
 	if !v.returned {
-		gs := s.mine()
+		gs := s.stable()
 		v.obs = s.obs()
 		if s.termed {
 			site := "none"
@@ -425,6 +526,13 @@ wait:
 					}
 				}
 			}
+			if site == "none" {
+				for _, g := range gs {
+					if g.kind == "main" && g.site != "" {
+						site = g.site // stuck before the relays exist: dial | preface-read | preface-write
+					}
+				}
+			}
 			v.sig = "c10:not-returned:" + site
 			v.fail = fmt.Sprintf("Config.Proxy has not returned %v after the terminating event %q; session goroutines left: %s (reader blocked at: %s)",
 				returnBound, s.termWhy, kindsOf(gs), site)
@@ -433,7 +541,11 @@ wait:
 	}
 	// the caller of Proxy (Proxy.handleLoop) closes the client connection afterwards
 	s.proxyEnd.Close()
-	closedSeen := s.sReset || waitFor(scale(closeBound), func() bool { _, _, e := s.sstat.get(); return e })
+	closedSeen := s.mode != "ok" || waitFor(scale(closeBound), s.upstreamClosed)
+	if os.Getenv("C10_DEBUG") != "" {
+		_, _, e := s.sstat.get()
+		fmt.Fprintf(os.Stderr, "finish: closedSeen=%v inode=%q fdOpen=%v serverEnded=%v err=%q\n", closedSeen, s.scInode, fdOpen(s.scInode), e, s.sstat.endErr)
+	}
 	if closedSeen {
 		waitFor(scale(leakBound), func() bool { return len(s.mine()) == 0 })
 	}
@@ -445,7 +557,7 @@ wait:
 	switch {
 	case !closedSeen:
 		v.sig = "c10:upstream-open-after-return"
-		v.fail = fmt.Sprintf("Config.Proxy returned after %q but the TLS server saw no EOF/close on its accepted connection within %v", s.termWhy, closeBound)
+		v.fail = fmt.Sprintf("Config.Proxy returned after %q but %v later its end of the upstream connection is still open (file descriptor present, no EOF/close seen by the TLS server)", s.termWhy, closeBound)
 	case len(left) > 0:
 		v.sig = "c10:goroutines-left:" + kindsOf(left)
 		v.fail = fmt.Sprintf("Config.Proxy returned after %q and the client connection was closed, but %v later session goroutines remain: %s\n%s",
@@ -454,10 +566,14 @@ wait:
 	return v
 }
 
-// provenDeadlock: a reader is blocked sending into the peer's output and only one writer goroutine exists.
+// provenDeadlock: a reader is blocked sending into the peer's output and only one writer goroutine
+// exists; or Proxy sits in the preface read of a client that the case keeps silent.
 func (s *session) provenDeadlock() bool {
 	writers, peerEmit := 0, false
 	for _, g := range s.mine() {
+		if g.kind == "main" && g.site == "preface-read" && !s.prefaced {
+			return true
+		}
 		if g.kind == "writer" {
 			writers++
 		}
@@ -541,5 +657,12 @@ func (e *ex) finish() core.Result {
 	} else {
 		core.Count("verdict:" + v.sig)
 	}
-	return core.Result{Impl: v.obs, Fail: v.fail, Sig: v.sig}
+	res := core.Result{Impl: v.obs, Fail: v.fail, Sig: v.sig}
+	if isRace(e.hist) && v.returned {
+		// the schedule pinned by the `hint` ops (the F10c race) did not happen in this run: the model's
+		// prediction is about another schedule and is not compared; the oracle above still holds
+		core.Count("race_missed")
+		res.ModelOp = "finish missed-race"
+	}
+	return res
 }
